@@ -16,7 +16,9 @@ SPEC = {
                      "slot ageing, ISO-TP, pending information and the device list are other properties' models"],
     'assumptions': ["32-bit build: the exact commutation excludes the instants at which a FromNow() lands on the scheduler's all-ones "
                     "'disabled' value (documented 1 ms slack, characterised exactly by C13_primitives_elapsed_only); the harness compares such "
-                    "runs with a 1 ms tolerance under dense polling", "64-bit build: the shifted clock stays below 2^64 - 2^33",
+                    "runs with a 1 ms tolerance under dense polling; a pair in which a script operation (configuration, forced heartbeat, claim, "
+                    "driver behaviour) executes within 2 ms of a heartbeat grid point or of a claim-window end is not compared when a sentinel was "
+                    "hit, because the 1 ms later open puts the operation on the other side of that instant (counted, not flagged)", "64-bit build: the shifted clock stays below 2^64 - 2^33",
                     "N2kMillis64() on the 32-bit build is sampled at least once per 2^32 ms (hypothesis of C13_roll_counter; every poll of an "
                     "active node samples it)"],
 }
